@@ -41,6 +41,12 @@ EDITS = [
     ("H9 tail call primitive: the two halves of the key split swapped", "genjax/_src/adev/core.py",
      "        key, sub_key = jax.random.split(key)\n        return kdual(key, self.before_tail_call(sub_key, dual_tree))",
      "        sub_key, key = jax.random.split(key)\n        return kdual(key, self.before_tail_call(sub_key, dual_tree))", ["C29"]),
+    ("H11 static handlers: ANOTHER key derivation scheme with the same guarantees (the handler key is split at every site "
+     "instead of folding in a counter) - results change for a given key, the property (independent site keys derived from the "
+     "caller's key, deterministic in the key) does not", "genjax/_src/generative_functions/static.py",
+     "        new_key = jax.random.fold_in(self.key, self.key_counter)\n        self.key_counter += 1\n        return new_key\n",
+     "        self.key, new_key = jax.random.split(self.key)\n        self.key_counter += 1\n        return new_key\n",
+     ["C04", "C22", "C05", "C07"]),
     ("H10 distribution.edit_regenerate: new value computed into differently named locals", "genjax/_src/generative_functions/distributions/distribution.py",
      "            w, new_v = self.random_weighted(key, *primals)\n            incremental_w = w - trace.get_score()\n            old_v = trace.get_retval()\n            new_trace = DistributionTrace(self, primals, new_v, w)",
      "            old_v = trace.get_retval()\n            fresh_score, fresh_value = self.random_weighted(key, *primals)\n            new_v, w = fresh_value, fresh_score\n            new_trace = DistributionTrace(self, primals, fresh_value, fresh_score)\n            incremental_w = fresh_score - trace.get_score()",
@@ -51,12 +57,16 @@ EDITS = [
 def main():
     D = "/var/tmp/harmless/tree"
     alarms = 0
+    import sys
+    only = sys.argv[1] if len(sys.argv) > 1 else ""
     for name, rel, a, b, props in EDITS:
+        if only and not name.startswith(only):
+            continue
         shutil.rmtree(D, ignore_errors=True)
         shutil.copytree("/repo/src", D + "/src")
         p = f"{D}/src/{rel}"
         s = open(p).read()
-        if s.count(a) != 1:
+        if s.count(a) != 1 and not (name.startswith("H11") and s.count(a) == 5):      # (H11: every handler class)
             print(name, ":: PATTERN NOT FOUND (the repository changed: adapt the edit)", s.count(a))
             continue
         open(p, "w").write(s.replace(a, b))
